@@ -79,6 +79,10 @@ public:
 
 private:
     void resetMIDIDefaults(int offset = 0);
+    /**
+     * @brief (Re)connect the loop hooks of the sequencer after the chips were re-created
+     */
+    void applyLoopHooks();
 
 public:
     /**********************Internal structures and classes**********************/
@@ -535,6 +539,7 @@ public:
         int     ScaleModulators;
         bool    fullRangeBrightnessCC74;
         bool    enableAutoArpeggio;
+        bool    loopHooksOnly;
 
         double delay;
         double carry;
